@@ -178,7 +178,9 @@ pub struct SrResult {
 }
 
 pub fn stateright_bfs<Y: Sys>(sys: Arc<Y>, max_states: usize) -> SrResult {
-    let checker = SrModel(sys).checker().threads(1).target_state_count(max_states.saturating_mul(2)).spawn_bfs().join();
+    // stateright's target counts *generated* states (repeats included): allow every edge of max_states states
+    let target = max_states.saturating_mul(sys.alphabet().len() + 1);
+    let checker = SrModel(sys).checker().threads(1).target_state_count(target).spawn_bfs().join();
     let d = checker.discoveries();
     let cx = d.into_values().next().map(|p| p.into_actions());
     SrResult {
